@@ -1,6 +1,9 @@
 package rhpmitm
 
 import (
+	"math/bits"
+
+	"go.sia.tech/core/blake2b"
 	rhp4 "go.sia.tech/core/rhp/v4"
 	"go.sia.tech/core/types"
 )
@@ -25,4 +28,100 @@ func SectorLeafProof(sector *[rhp4.SectorSize]byte, i uint64) ([rhp4.LeafSize]by
 	var leaf [rhp4.LeafSize]byte
 	copy(leaf[:], data)
 	return leaf, proof
+}
+
+// SpineParts expresses MetaRoot(leaves) as a right-nested chain of exactly m
+// nodes P1..Pm with H(P1, H(P2, ... H(Pm-1, Pm))) == MetaRoot(leaves) (for
+// m == 1 the root itself). That is what an append-proof verifier rebuilds
+// from the subtree roots for an old leaf count with m one-bits - whatever
+// that count is. A forging host uses it to answer an append consistently for
+// a WRONG old leaf count. ok is false if the real tree has no such chain.
+func SpineParts(leaves []types.Hash256, m int) (parts []types.Hash256, ok bool) {
+	n := len(leaves)
+	if m <= 0 || n == 0 {
+		return nil, false
+	}
+	// the real perfect subtrees, largest first
+	type tree struct{ leaves []types.Hash256 }
+	var trees []tree
+	rest := leaves
+	for h := 62; h >= 0; h-- {
+		if size := 1 << h; n&size != 0 {
+			trees = append(trees, tree{rest[:size]})
+			rest = rest[size:]
+		}
+	}
+	fold := func(ts []tree) types.Hash256 {
+		var all []types.Hash256
+		for _, t := range ts {
+			all = append(all, t.leaves...)
+		}
+		return rhp4.MetaRoot(all)
+	}
+	p := len(trees)
+	if m <= p {
+		for _, t := range trees[:m-1] {
+			parts = append(parts, rhp4.MetaRoot(t.leaves))
+		}
+		return append(parts, fold(trees[m-1:])), true
+	}
+	for _, t := range trees[:p-1] {
+		parts = append(parts, rhp4.MetaRoot(t.leaves))
+	}
+	last := trees[p-1].leaves
+	for len(parts) < m-1 {
+		if len(last) < 2 {
+			return nil, false
+		}
+		half := len(last) / 2
+		parts = append(parts, rhp4.MetaRoot(last[:half]))
+		last = last[half:]
+	}
+	return append(parts, rhp4.MetaRoot(last)), true
+}
+
+// AppendAnswerForLeafCount computes the append answer (subtree roots in wire
+// order, new root) a verifier that believes the old tree has count leaves
+// accepts for appending app to the tree whose real leaves are given.
+func AppendAnswerForLeafCount(leaves []types.Hash256, count uint64, app []types.Hash256) (subtree []types.Hash256, newRoot types.Hash256, ok bool) {
+	if count == 0 {
+		if len(leaves) != 0 {
+			return nil, types.Hash256{}, false
+		}
+		_, r := rhp4.BuildAppendProof(nil, app)
+		return nil, r, true
+	}
+	parts, ok := SpineParts(leaves, bits.OnesCount64(count))
+	if !ok {
+		return nil, types.Hash256{}, false
+	}
+	acc := blake2b.Accumulator{NumLeaves: count}
+	// the verifier consumes subtree roots from the lowest set bit upwards; the
+	// chain's innermost (last) part is the lowest tree
+	k := len(parts) - 1
+	for i := 0; i < 64; i++ {
+		if count&(1<<i) != 0 {
+			acc.Trees[i] = parts[k]
+			subtree = append(subtree, parts[k])
+			k--
+		}
+	}
+	for _, h := range app {
+		acc.AddLeaf(h)
+	}
+	return subtree, acc.Root(), true
+}
+
+// HalvedView returns the ceil(n/2)-leaf view of the tree over leaves (adjacent
+// pairs merged, an odd last leaf kept): it has the same Merkle root, so a
+// verifier that believes in that smaller leaf count accepts proofs built over it.
+func HalvedView(leaves []types.Hash256) []types.Hash256 {
+	var out []types.Hash256
+	for i := 0; i+1 < len(leaves); i += 2 {
+		out = append(out, blake2b.SumPair(leaves[i], leaves[i+1]))
+	}
+	if len(leaves)%2 == 1 {
+		out = append(out, leaves[len(leaves)-1])
+	}
+	return out
 }
